@@ -8,7 +8,7 @@ import itertools, os, re, shutil, tempfile, warnings
 from verif import core, corpus, cmp, eng, inputs
 
 LEVEL = "exploration"
-ORDER_SENSITIVE = re.compile(r"\b(inner_join|left_join|full_join|cross_join|union|intersect|setdiff|symdiff|group\s+(by|except|all)|aggr|over\s*\(|sum|avg|count|min|max|median|hierarchy|check_hierarchy|exists_in|fill_time_series|flow_to_stock|stock_to_flow|timeshift)\b")
+ORDER_SENSITIVE = re.compile(r"\b(DS_3|inner_join|left_join|full_join|cross_join|union|intersect|setdiff|symdiff|group\s+(by|except|all)|aggr|over\s*\(|sum|avg|count|min|max|median|hierarchy|check_hierarchy|exists_in|fill_time_series|flow_to_stock|stock_to_flow|timeshift)\b")
 ANALYTIC = re.compile(r"\bover\s*\(")
 
 
@@ -135,14 +135,42 @@ SCRIPTS = [
     "R <- DS_1 [aggr x := count(), y := sum(Me_1) group by Id_2 having count() > 1];",
     "R <- first_value(DS_1 over (partition by Id_1 order by Id_2 asc));", "R <- last_value(DS_1 over (partition by Id_1 order by Id_2 desc));",
     "R <- DS_1 [calc r := rank(over (partition by Id_1 order by Id_2 desc))];", "R <- lag(DS_1, 1 over (partition by Id_1 order by Id_2));",
-    "R <- sum(DS_1 over (partition by Id_1 order by Id_2 rows between 1 preceding and current row));",
-    "R <- DS_1 [calc c := count(Me_1 over (partition by Id_2 order by Id_1 rows between unbounded preceding and current row))];",
+    "R <- sum(DS_1 over (partition by Id_1 order by Id_2 data points between 1 preceding and current data point));",
+    "R <- DS_1 [calc c := count(Me_1 over (partition by Id_2 order by Id_1 data points between unbounded preceding and current data point))];",
     "R <- ratio_to_report(DS_1 over (partition by Id_1));",
     "R <- inner_join(DS_1 as a, DS_2 as b rename a#Me_1 to a1, b#Me_1 to b1, a#Me_2 to a2, b#Me_2 to b2, a#At_1 to t1, b#At_1 to t2);",
     "R <- left_join(DS_1 as a, DS_2 as b keep a#Me_1, b#Me_2);", "R <- full_join(DS_1 as a, DS_2 as b keep a#Me_1, b#Me_2);",
     "R <- DS_1 + DS_2;", "R <- DS_1 [filter Me_1 > 0] * DS_2;", "R <- exists_in(DS_1, DS_2, all);", "R <- DS_1#Me_1 > DS_2#Me_1;",
     "R <- DS_1 [sub Id_2 = \"a\"]; R2 <- DS_1 [keep Me_1] [rename Me_1 to x];",
 ]
+
+
+T_SCRIPTS = ["R <- DS_3;", "R <- DS_3 [calc y := getyear(Me_d), p := period_indicator(Me_p)];", "R <- max(DS_3 group by Id_1);", "R <- DS_3 [filter Me_d > cast(\"2020-06-01\", date)];",
+             "R <- DS_3 [calc q := time_agg(\"A\", Me_p)];", "R <- count(DS_3 group by Id_2);", "R <- DS_3 [keep Me_p];"]
+DATES = [None, "2020-01-31", "2020-01-31 10:30:00", "2021-02-28T23:59:59", "2019-12-31", "2020-06-15 00:00:01"]
+PERIODS = [None, "2020-Q1", "2020Q2", "2020-M1", "2020M12", "2020-A1", "2020", "2020-W01", "2020W53", "2020S2", "2021-03"]
+
+
+def work_time(seed, n, quick):
+    """Date / Time_Period measures with mixed spellings (date vs date-time, hyphenated vs compact periods)."""
+    warnings.filterwarnings("ignore")
+    import random, hypothesis
+    from hypothesis import given, settings, HealthCheck, strategies as st
+    part = core.Part()
+    comps = [eng.comp("Id_1", "Integer", "I"), eng.comp("Id_2", "String", "I"), eng.comp("Me_d", "Date"), eng.comp("Me_p", "Time_Period")]
+    S = eng.structures(eng.structure("DS_3", comps))
+    header = [c["name"] for c in comps]
+    cell = st.tuples(st.sampled_from(["1", "2", "3"]), st.sampled_from(["a", "b", "c"]), st.sampled_from(DATES), st.sampled_from(PERIODS))
+    table = st.lists(cell, min_size=2, max_size=5, unique_by=lambda r: (r[0], r[1])).map(lambda rs: [list(r) for r in rs])
+
+    @settings(max_examples=n, database=None, deadline=None, suppress_health_check=list(HealthCheck), phases=[hypothesis.Phase.generate])
+    @hypothesis.seed(seed)
+    @given(st.sampled_from(T_SCRIPTS), table, st.sampled_from(["csv", "df", "parquet"]), st.integers(0, 10**6))
+    def prop(script, t, form, rs):
+        mk = lambda dp: dict(script=script, data_structures=S, datapoints=dp, return_only_persistent=False)
+        check_tables(part, "generated:time", {"DS_3": (header, t)}, mk, ["generated:time"], quick, random.Random(rs), [form], script)
+    prop()
+    return part
 
 
 def work_generated(seed, n, quick):
@@ -184,6 +212,7 @@ def run(ctx):
     ids = [c["id"] for c in exe]
     n = 8 if ctx.quick else 500
     jobs = [("work_corpus", (ids[k::16], ctx.quick, ctx.seed)) for k in range(16)] + [("work_generated", (ctx.seed * 1009 + k, n, ctx.quick)) for k in range(16)]
+    jobs += [("work_time", (ctx.seed * 1009 + 100 + k, max(4, n // 2), ctx.quick)) for k in range(16)]
     ctx.merge(core.pmap("checks.c33", "_dispatch", jobs, procs=16))
     ctx.assumptions = ["CSV cells are re-written through python's csv module (minimal quoting); an empty CSV field is treated as null in every form",
                        "analytic orderings in generated scripts are total by construction (order by the remaining identifier)"]
@@ -195,7 +224,13 @@ def replay(ctx, path):
     os.environ["VERIF_TMP"] = ctx.workdir
     case = json.load(open(path))["case"]
     part = core.Part()
-    if case["source"] == "generated":
+    if case["source"] == "generated:time":
+        comps = [eng.comp("Id_1", "Integer", "I"), eng.comp("Id_2", "String", "I"), eng.comp("Me_d", "Date"), eng.comp("Me_p", "Time_Period")]
+        S = eng.structures(eng.structure("DS_3", comps))
+        tables = {n: (t["header"], t["rows"]) for n, t in case["tables"].items()}
+        mk = lambda dp: dict(script=case["script"], data_structures=S, datapoints=dp, return_only_persistent=False)
+        check_tables(part, "generated:time", tables, mk, [], False, random.Random(1), [case["form"]], case["script"])
+    elif case["source"] == "generated":
         comps = [eng.comp("Id_1", "Integer", "I"), eng.comp("Id_2", "String", "I"), eng.comp("Me_1", "Number"), eng.comp("Me_2", "Integer"), eng.comp("At_1", "String", "V")]
         S = eng.structures(eng.structure("DS_1", comps), eng.structure("DS_2", comps))
         tables = {n: (t["header"], t["rows"]) for n, t in case["tables"].items()}
